@@ -1,4 +1,6 @@
 #!/bin/bash
+export VERIF_EVIDENCE_DIR=$(mktemp -d /tmp/seedev.XXXXXX)   # evidence of runs on a mutated tree is not evidence
+trap 'rm -rf $VERIF_EVIDENCE_DIR' EXIT
 # usage: seedmatrix.sh [seed names...]  - applies each seeded change to a scratch copy of the repository (never to /repo),
 # runs the quick check of the property it was written for against that copy (VERIF_REPO) and prints one line per seed.
 cd "$(dirname "$0")/.."
